@@ -1,17 +1,44 @@
 /-
-  C05 — property theorems (see DESIGN.md §6 C05).  Helper lemmas live in Proofs/.
+  C05 — reading never panics or hangs: every text yields an AST or an error.
+
+  `tokenize`, `readStr`, `readWithPreamble` and `print` are total Lean functions (their termination
+  is checked by the kernel: the model cannot hang).  The theorems below show that none of the partial
+  Go operations mirrored in the model (`RErr.panic`) is reachable, for every byte string, with or
+  without environment, with or without placeholder table.
+  Property theorems only (helper lemmas live in Proofs/Reader.lean, Proofs/Scanner.lean).
 -/
 import LispModel.Read
 import LispModel.Print
 import LispModel.Preamble
 import LispModel.Spec.Readable
 import LispModel.Util
+import LispModel.Proofs.Reader
 namespace LispModel.Props.C05
 open LispModel
 
 def isPanic {α} : Except Read.RErr α → Bool
   | .error (.panic _) => true
   | _ => false
+
+/-- `READ` / `read-string`: for every byte string, configuration (module name, placeholder table
+    present or not, environment present or not) the outcome is a value or an ordinary error. -/
+theorem read_never_panics (cfg : Read.Cfg) (bytes : List UInt8) :
+    isPanic (Read.readStr cfg bytes) = false := by
+  have h := Proofs.Reader.readStr_no_panic cfg bytes
+  unfold isPanic
+  split
+  · rename_i s hs; exact absurd hs (h s)
+  · rfl
+
+/-- `READWithPreamble`: likewise, for every byte string (any mix of preamble lines and source). -/
+theorem readWithPreamble_never_panics (cfg : Read.Cfg) (bytes : List UInt8) (site : String) :
+    ¬ (∃ v, Preamble.readWithPreamble cfg bytes = .err (.panic site) ∧ v = ()) := by
+  rintro ⟨_, h, _⟩
+  exact Proofs.Reader.readWithPreamble_no_panic cfg bytes site h
+
+/-- whenever reading succeeds, `PRINT` of the result is a string (a total function) -/
+theorem print_total (cfg : Read.Cfg) (bytes : List UInt8) (v : Val) (_h : Read.readStr cfg bytes = .ok v) :
+    ∃ s : List Char, Print.print v = s := ⟨_, rfl⟩
 
 /-- the witnesses of the repaired defects D2 and D4 are ordinary errors / values now -/
 theorem reader_macro_at_eof_is_an_error : isPanic (Read.readStr {} (bytes% "'")) = false := by decide
